@@ -117,6 +117,7 @@ fn main() -> Result<()> {
     }
 
     // Sanity-check all sources up-front
+    let mut targets: Vec<PathBuf> = Vec::with_capacity(sources.len());
     for source in &sources {
         info!("Copying source {:?} to {:?}", source, dest);
         if !source.exists() {
@@ -150,6 +151,14 @@ fn main() -> Result<()> {
         if source.is_dir() && target_base.exists() && !target_base.is_dir() {
             return Err(XcpError::InvalidDestination("Cannot copy a directory to a file.").into());
         }
+
+        // Like cp, refuse several sources that map onto the same
+        // destination entry: they would overwrite one another in an
+        // order that depends on thread scheduling.
+        if targets.contains(&target_base) {
+            return Err(XcpError::InvalidDestination("Multiple sources map to the same destination.").into());
+        }
+        targets.push(target_base);
     }
 
 
